@@ -251,3 +251,36 @@ def c12(tier, seed):
     except pl.Machinery as e:
         print('MACHINERY FAILURE C12: %s' % e)
         return 2
+
+
+# ----------------------------------------------------------------------------------------
+# replay (registry.REPLAYERS): re-execute exactly the recorded case through driver + trace specification
+
+def _replay(prop, rp, seed, driver, trace_module, numerics, keep):
+    case, verdict = rp['case'], rp['verdict']
+    run = pl.Run(prop + 'r', 'replay', seed)
+    try:
+        c = {k: case[k] for k in keep if k in case}
+        pl.write_cases([c], run.path('cases.ndjson'))
+        shards = pl.drive(run, driver, run.path('cases.ndjson'), 'trace',
+                          ['--codecs', ','.join(ALL_CODECS), '--numerics', numerics], nshards=1)
+        reports = pl.validate(run, trace_module, TRACE_CFG, shards)
+        bad = [o for r in reports for o in r['other']
+               if o['vi'] == verdict['vi'] and o['verdict'] not in ('skip',)]
+        for o in bad:
+            print('REPLAY %s vi=%s %s: %s %s' % (o['codec'], o['vi'], o['check'], o['verdict'], o['detail'][:300]))
+        if not bad:
+            print('REPLAY: the recorded case is accepted now')
+        run.cleanup()
+        return 1 if bad else 0
+    except pl.Machinery as e:
+        print('MACHINERY FAILURE replay: %s' % e)
+        return 2
+
+
+def replay_c11(rp, seed):
+    return _replay('C11', rp, seed, 'drive_constraints.py', 'Trace_Constraints', '0', ('cid', 'env', 'top', 'vals'))
+
+
+def replay_c12(rp, seed):
+    return _replay('C12', rp, seed, 'drive_corrupt.py', 'Trace_Corrupt', '0,1', ('cid', 'env', 'top', 'vals', 'cors'))
